@@ -307,7 +307,25 @@ class C11:
                 ctx.bad("R11.5", self.file, "buffer_shapely_geometry", f"return {show(t)[:60]}",
                         "the result must be re-validated by data.Polygon(...) / data.MultiPolygon(...)", r.lineno)
         if ctors == {"Polygon", "MultiPolygon"}:
-            ctx.ok("R11.5", site, "result built by the validating constructors data.Polygon / data.MultiPolygon")
+            # each constructor on the path of its own GeoJSON type: the type tag of the buffered shape decides
+            crossed = None
+            for r in s.returns:
+                t = r.term
+                if not (t[0] == "call" and t[1][0] == "global"):
+                    continue
+                cname = t[1][1].split(":")[1]
+                tags_eq = [c_[3][1] for c_ in conjuncts(r.live) if c_[0] == "cmp" and c_[1] == "eq" and c_[3][0] == "const" and isinstance(c_[3][1], str)
+                           and c_[2][0] == "sub" and c_[2][2] == ("const", "type")]
+                tags_ne = [c_[3][1] for c_ in conjuncts(r.live) if c_[0] == "cmp" and c_[1] == "ne" and c_[3][0] == "const" and isinstance(c_[3][1], str)
+                           and c_[2][0] == "sub" and c_[2][2] == ("const", "type")]
+                if (tags_eq and tags_eq[0] != cname) or (cname in tags_ne):
+                    crossed = (cname, tags_eq[0] if tags_eq else f"not {cname}", r)
+            if crossed:
+                ctx.bad("R11.5", self.file, "buffer_shapely_geometry", f"data.{crossed[0]}(...) when the buffered shape is {crossed[1]}",
+                        f"the buffered shape is converted with data.{crossed[0]} on the path where its GeoJSON type is {crossed[1]}: the coordinates "
+                        f"of one kind are handed to the constructor of the other and the result is rejected (or mis-read)", crossed[2].lineno)
+            else:
+                ctx.ok("R11.5", site, "result built by the validating constructors data.Polygon / data.MultiPolygon")
 
 
 def run_affinity_subset(ctx: Ctx):
